@@ -23,7 +23,8 @@ class IourPlan:
         nk, ne = self.n
         return [("iour.poll_entries", lambda p: self.D.check_poll_entries(p, nk, ne)),
                 ("iour.drop", lambda p: self.D.check_drop(p, nk, ne)),
-                ("iour.push", lambda p: self.D.check_push(p, 1, 2))]
+                ("iour.push", lambda p: self.D.check_push(p, 1, 2)),
+                ("iour.blocking", self.D.check_blocking)]
 
     def encoded(self):
         return sorted(self.D.encoded)
